@@ -455,6 +455,12 @@ static inline double cmb_random_std_beta(const double a, const double b)
     /* cmb_random_gamma handles shape parameters below one, cmb_random_std_gamma does not */
     const double x = cmb_random_gamma(a, 1.0);
     const double y = cmb_random_gamma(b, 1.0);
+    if (x + y == 0.0) {
+        /* Both gamma variates underflowed (very small shape parameters): the
+         * mass sits at the end points, in the proportion a : b */
+        return (cmb_random() * (a + b) < a) ? 1.0 : 0.0;
+    }
+
     const double r = x / (x + y);
 
     cmb_assert_debug((r >= 0.0) && (r <= 1.0));
